@@ -984,6 +984,9 @@ def remap_by_types(
             elif ((dc := self.lookup_type(t_node.value)) is not None) and is_dataclass(dc):
                 dc_types = get_type_hints(dc)
                 if node.attr not in dc_types:
+                    if hasattr(dc, node.attr):
+                        # A method, or something else the class defines: not a field
+                        return t_node
                     raise ValueError(f"Key {node.attr} not found in dataclass/dictionary {dc}")
                 self._found_types[node] = dc_types[node.attr]
             return t_node
